@@ -472,6 +472,7 @@ def avx_shell(R, P):
                 continue
             bad = [r_ for r_ in res if not r_[0]]
             R.check(not bad, "AVX-SHELL", "%s:loop@%s:progress" % (name, (B.term_loc or [0])[0]), "%s:%s" % (AVX, (B.term_loc or [0])[0]), "every iteration consumes input")
+    pad_tail(R, P)
     # the contract assumed above holds at the call sites
     for caller, kern, chk in (("aws_base64_encode", "aws_common_private_base64_encode_sse41", "enc"), ("aws_base64_decode", "aws_common_private_base64_decode_sse41", "dec")):
         f = P.fn(caller)
@@ -516,6 +517,60 @@ def avx_shell(R, P):
             ok = ok and any(z.blk in inner and ev_dominates(f, z, c, dom) for z in clr)
         R.check(ok, "AVX-SHELL", "encode_sse41:bounce-buffer-cleared-per-iteration", where(f, cps[0]) if cps else f.name, "the partial copy into the bounce buffer follows a clear in the same loop iteration",
                 "the bounce buffer is partially overwritten without being cleared in that iteration: bytes of the previous stride leak into the encoding")
+
+
+class _NonEmpty(AvxHooks):
+    def entry(self, num, st):
+        AvxHooks.entry(self, num, st)
+        n = C04._param(num, st, 2)
+        st.add(Poly.const(1) - n)  # a non-empty text
+
+
+def pad_tail(R, P):
+    """the whole-vector loop of the vectorised decoder treats '=' as an invalid character; only the tail code strips the
+    padding.  So for every non-empty text the last characters must reach the tail: every accepting return of a non-empty
+    input passes through the code that tests for '=' (NUM, all lengths)."""
+    name = "aws_common_private_base64_decode_sse41"
+    f = P.fn(name)
+    if f is None:
+        return
+    pad_blocks = set()
+    for b in f.blocks.values():
+        for el in list(b.elems) + ([b.cond] if b.cond is not None else []):
+            for x in f.walk(el, follow_refs=True):
+                if x["k"] == "bin" and x["op"] in ("==", "!=") and any(f.is_const(a) == 61 for a in x["a"]):
+                    pad_blocks.add(b.id)
+    if not R.require(bool(pad_blocks), "%s: no comparison with '=' found (where is padding stripped?)" % name):
+        return
+    rets = [x for b in f.blocks.values() for x in b.elems if x["k"] == "ret"]
+    # the tail region: blocks that dominate a padding test (loop bodies are summarised, their headers and the code before
+    # them are on the trail) but not the accepting return itself
+    dom = dominators(f)
+    retblk = {b.id for b in f.blocks.values() for x in b.elems if x["k"] == "ret" and x["a"] and f.is_const(x["a"][0]) is None}
+    common = set.intersection(*[dom[b] for b in retblk if b in dom]) if retblk else set()
+    region = set()
+    for pb in pad_blocks:
+        region |= dom.get(pb, set()) - common
+    pad_blocks = region | pad_blocks
+    num = Num(f, P, _NonEmpty(), max_paths=20000)
+    try:
+        sts = num.states_at({r["id"] for r in rets})
+    except Limit as ex:
+        R.broken("NUM trace limit in %s: %s" % (name, ex))
+        return
+    ok, det, cnt = True, "", 0
+    for r in rets:
+        for st in sts.get(r["id"], []):
+            v = num.val(r["a"][0], st)
+            if v is not None and v.is_const() and v.cval() in (-1, 2 ** 64 - 1):
+                continue  # a rejection
+            cnt += 1
+            seen = {t[0] for t in st.trail} | {t[1] for t in st.trail}
+            if not (seen & pad_blocks):
+                ok, det = False, "an accepting return at line %d is reached by a non-empty text without passing the padding-aware tail (trail %s)" % (r.get("loc", [0])[0], st.trail[-6:])
+    R.check(ok and cnt > 0, "AVX-SHELL", "decode_sse41:last-characters-reach-the-padding-aware-tail", "%s in %s()" % (AVX, name),
+            "every accepted non-empty text has its last characters handled by the code that strips '=' (%d accepting states)" % cnt,
+            "the whole-vector loop (which rejects '=') can consume the end of the text: a padded encoding whose length is a multiple of 32 is refused by the vectorised decoder and accepted by the portable one: %s" % det)
 
 
 def chunk(R, P):
@@ -621,6 +676,7 @@ MUTANTS = [
 ]
 MUTANTS = [m for m in MUTANTS if m["name"] != "reported-more-than-written"]
 MUTANTS.append({"name": "decoded-len-ignores-second-pad", "file": ENC, "expect": "LENGTHS", "old": "        padding = 2;", "new": "        padding = 1;"})
+MUTANTS.append({"name": "avx-decode-loop-eats-padded-tail", "file": AVX, "expect": "AVX-SHELL", "old": "    while (len > 32) {", "new": "    while (len >= 32) {"})
 MUTANTS.append({"name": "avx-bounce-clear-removed", "file": AVX, "expect": "AVX-SHELL", "old": "        memset(&instride, 0, sizeof(instride));\n", "new": ""})
 for _m in MUTANTS:
     _m.setdefault("scope", {"rules": [_m["expect"]]})
